@@ -545,3 +545,67 @@ def decide(atoms, target):
         return None if w is None else "".join(al.reps[c] for c in w)
 
     return {"included": out_w is None, "witness_outside": word(out_w), "disjoint": com_w is None, "witness_common": word(com_w), "classes": al.n}
+
+
+# ---------------------------------------------------------------------------------- self-check
+def _accepts(dfa, word):
+    st = dfa.start
+    for c in word:
+        st = dfa.trans[st][c]
+    return st in dfa.finals
+
+
+def validate_atoms(maxlen=3):
+    """compare the automaton of every atom with what the interpreter's own functions say, on every
+    word up to `maxlen` characters over one representative per character class (the partition is
+    exact, so representatives stand for their classes).  -> (words checked, list of mismatches)"""
+    import itertools
+    import re
+
+    def ok_fromhex(s):
+        try:
+            bytes.fromhex(s)
+            return True
+        except ValueError:
+            return False
+
+    def roundtrip(s):
+        try:
+            return bytes.fromhex(s).hex() == s
+        except ValueError:
+            return False
+
+    atoms = [
+        ("bytes.fromhex(s) succeeds", L_fromhex(), ok_fromhex),
+        ("s.isalnum()", L_isalnum(), str.isalnum),
+        ("s.lower() == s", L_lower_fixed(), lambda s: s.lower() == s),
+        ("s.upper() == s", L_upper_fixed(), lambda s: s.upper() == s),
+        ("s.isdigit()", L_allchars("digit", True), str.isdigit),
+        ("s.isdecimal()", L_allchars("decimal", True), str.isdecimal),
+        ("s.isascii()", L_allchars("ascii", False), str.isascii),
+        ("len(s) == 2", L_len("==", 2), lambda s: len(s) == 2),
+        ("len(s) % 2 == 0", L_len_mod(2, 0), lambda s: len(s) % 2 == 0),
+        ("bytes.fromhex(s).hex() == s", ("and", L_fromhex(), star(cat(sym(("chars", HEXLOW)), sym(("chars", HEXLOW))))), roundtrip),
+        ("re.fullmatch('(?:[0-9a-f]{2})+', s)", regex_language("(?:[0-9a-f]{2})+", "fullmatch"), lambda s: re.fullmatch("(?:[0-9a-f]{2})+", s) is not None),
+        ("re.match('^[0-9a-f]+$', s)", regex_language("^[0-9a-f]+$", "match"), lambda s: re.match("^[0-9a-f]+$", s) is not None),
+        ("re.match('[0-9a-f]+\\\\Z', s)", regex_language("[0-9a-f]+\\Z", "match"), lambda s: re.match("[0-9a-f]+\\Z", s) is not None),
+        ("re.search('[\\\\da-f]', s)", regex_language("[\\da-f]", "search"), lambda s: re.search("[\\da-f]", s) is not None),
+        ("re.fullmatch('\\\\w.', s)", regex_language("\\w.", "fullmatch"), lambda s: re.fullmatch("\\w.", s) is not None),
+    ]
+    scans, chars = set(), set()
+    for _n, a, _f in atoms:
+        _collect(a, scans, chars)
+    al = Alphabet(scans, chars)
+    dfas = [(n, to_dfa(a, al), f) for n, a, f in atoms]
+    words = 0
+    bad = []
+    for n in range(maxlen + 1):
+        for w in itertools.product(range(al.n), repeat=n):
+            s = "".join(al.reps[c] for c in w)
+            words += 1
+            for name, d, f in dfas:
+                if _accepts(d, w) != bool(f(s)):
+                    bad.append((name, s))
+                    if len(bad) > 20:
+                        return words, bad, al.n
+    return words, bad, al.n
